@@ -206,7 +206,51 @@ func Decode(file []byte) (res *Result) {
 	}()
 	d := &decoder{f: file, res: res}
 	d.run()
+	res.checkRefCounts()
 	return res
+}
+
+// checkRefCounts compares every object's stored reference count (1 when the
+// header carries no reference count message) with the number of hard links that
+// name it in the groups of this file; the root group has one implicit reference
+// from the superblock. Class "refcount-link-count".
+func (r *Result) checkRefCounts() {
+	links := map[uint64]int{}
+	fromDense := map[uint64]bool{} // named by a link that is stored densely (fractal heap + B-tree v2)
+	if r.Objects[r.RootAddr] != nil {
+		links[r.RootAddr]++
+	}
+	addrs := make([]uint64, 0, len(r.Objects))
+	for a, o := range r.Objects {
+		addrs = append(addrs, a)
+		for _, l := range o.Links {
+			if l.Kind == "hard" {
+				links[l.Addr]++
+				if o.LinkStorage == "dense" {
+					fromDense[l.Addr] = true
+				}
+			}
+		}
+	}
+	sort.Slice(addrs, func(i, j int) bool { return addrs[i] < addrs[j] })
+	for _, a := range addrs {
+		o := r.Objects[a]
+		n := links[a]
+		if n == 0 || o.HeaderVersion == 0 {
+			continue // unreachable or undecoded header: nothing to compare
+		}
+		rc := o.RefCount
+		if rc == 0 {
+			rc = 1
+		}
+		if int(rc) != n {
+			cls := "refcount-link-count"
+			if fromDense[a] {
+				cls = "refcount-link-count:dense-group-link"
+			}
+			r.addFinding(cls, a, "object header stores reference count %d, %d hard link(s) name the object", rc, n)
+		}
+	}
 }
 
 // Walk visits every path reachable from the root through hard links depth-first
